@@ -13,7 +13,7 @@ import random
 import s3transfer as legacy
 import s3transfer.processpool as pp
 
-from .. import harness, explore, detsched
+from .. import harness, explore, detsched, statereset
 from ..detsched import Sched
 from ..env.s3 import FakeS3, FakeClient, FaultPlan, InjectedOSError
 from ..env.fs import ScratchDir, FaultyFile
@@ -121,6 +121,8 @@ def run_frontend(scn, prefix=(), scratch=None, monitor=None):
         scratch.reset()
     random.seed(scn.get('seed', 0) * 7919 + 5)
     InlineExecutor._n = 0
+    statereset.register(pp)
+    statereset.restore()
     s = Sched(prefix=prefix)
     R = {}
     f = scn.get('faults') or {}
